@@ -29,7 +29,7 @@ SPECS = {
         assumptions=MACHINE_ASSUME),
     "C03": dict(units=[machine("TestC03", 640, 12000, steps=30)], floor=0.35, rule=None, assumptions=MACHINE_ASSUME),
     "C04": dict(units=[machine("TestC04", 640, 12000, steps=30)], floor=0.25, rule=None, assumptions=MACHINE_ASSUME),
-    "C05": dict(units=[machine("TestC05", 560, 9000, steps=32)], floor=0.25, rule=None, assumptions=MACHINE_ASSUME),
+    "C05": dict(units=[machine("TestC05", 560, 9000, steps=32), machine("TestC05PostUpgrade", 96, 1600)], floor=0.25, rule=None, assumptions=MACHINE_ASSUME),
     "C11": dict(units=[machine("TestC11", 640, 9000, steps=24), dict(test="TestKnownC11", kind="plain", quick=1, thorough=1)], floor=0.45, rule=None, assumptions=MACHINE_ASSUME),
     "C06": dict(units=[machine("TestC06", 960, 14000, steps=34)], floor=0.22, rule=None, assumptions=MACHINE_ASSUME),
     "C12": dict(units=[machine("TestC12", 560, 10000, steps=34)], floor=0.18, rule=None, assumptions=MACHINE_ASSUME),
